@@ -49,8 +49,18 @@ def has_other(v):
     return False
 
 
+NULLCLS = "auto-extend-deepen-converts-null-constant"
+
+
 def conv_obs(res):
     """driver answer -> {"class": ok|mlr_error|unparseable, "out": [("r", rec) | ("s", line)]}"""
+    o = conv_obs1(res)
+    if res.get("null_corrupted"):
+        o["null_corrupted"] = True
+    return o
+
+
+def conv_obs1(res):
     if res["status"] != "ok":
         return {"class": "mlr_error", "stderr": res.get("err", "")[-400:]}
     out = []
@@ -267,6 +277,10 @@ def probes(ctx):
          "reference-dsl-output-statements.md: emit1/emit send the variables' CURRENT values to the output record stream"),
         ("emit1-emits-map-by-reference", 'end{m = {"x": 1}; emit1 m; m["x"] = 2; emit1 m}', [], [R(("x", ("int", 1))), R(("x", ("int", 2)))],
          "same, local map"),
+        # fix 310ab990d (clone c14-repo): xs[n+1][k] = v converted the package-level NULL constant in place
+        (NULLCLS, 'end{xs = []; xs[1]["k"] = 5; ys = [7]; ys[2]["j"] = 6; emit1 {"r": ys}}', [],
+         [R(("r", ("arr", [("int", 7), ("map", [("j", ("int", 6))])])))],
+         "reference-main-arrays.md auto-extend: a write one past the end grows THAT array by one; other arrays' new elements are unaffected"),
     ]
     cases = [{"text": prog + "\n", "inputs": ins, "quiet": False} for _, prog, ins, _, _ in table]
     obs = [run_batch(ctx, [c])[0] for c in cases]     # one process each: a corrupted singleton must not leak into the next witness
@@ -300,7 +314,7 @@ def run(ctx):
         levels = P.gen_precedence(REPO)
     ctx.cov["precedence_levels_from_bnf"] = [[ops, a, k] for ops, a, k in levels]
     forbidden_gate(ctx, ["Base", "C14"])
-    ok, why = check_props(ctx, "C14/Props.v", ["C14/Harness.vo", "C14/Proofs.vo", "C14/StackProofs.vo", "C14/PrecProofs.vo", "C14/InterpProofs.vo", "C14/ScopeProofs.vo", "C14/DepthProofs.vo"])
+    ok, why = check_props(ctx, "C14/Props.v", ["C14/Harness.vo", "C14/Proofs.vo", "C14/StackProofs.vo", "C14/PrecProofs.vo", "C14/InterpProofs.vo", "C14/ScopeProofs.vo", "C14/DepthProofs.vo", "C14/ArrayProofs.vo"])
     bad, trees, block = P.behavioural_tie(ctx, 150 if ctx.tier == "quick" else 3000)
     if bad:
         ctx.violation(bad, found_input="expression" in bad)
@@ -438,7 +452,8 @@ def stack_tie(ctx):
 def cell_values():
     err = ("bin", "+", ("int", 1), ("str", "a"))
     return [("int", 3), ("int", -2), ("int", 0), ("bool", True), ("bool", False), ("str", ""), ("str", "abc"), ("str", "3"), ("str", "B"),
-            ("maplit", []), ("maplit", [(("str", "a"), ("int", 1))]), err, ("oos", "nosuch")]
+            ("maplit", []), ("maplit", [(("str", "a"), ("int", 1))]), err, ("oos", "nosuch"),
+            ("arrlit", []), ("arrlit", [("int", 1), ("str", "b")])]
 
 
 def cells(ctx, bits):
@@ -450,15 +465,55 @@ def cells(ctx, bits):
         p = {"funcs": [], "begin": [], "main": [], "end": [body]}
         return {"prog": p, "text": G.mlr_prog(p), "inputs": [], "quiet": False}
     ismap = lambda v: v[0] == "maplit"
+    isarr = lambda v: v[0] == "arrlit"
     for op in ["+", "-", "*", ".", "==", "!=", "<", "<=", ">", ">="]:
-        # outside the modelled fragment: map.attribute access (map on the left of the dot), map-to-map comparison
+        # outside the modelled fragment: map.attribute access (map on the left of the dot), map-to-map comparison, array == array
         cases.append(prog_of([("bin", op, a, b) for a in vals for b in vals
-                              if not (op == "." and ismap(a)) and not (op in G.CMP and ismap(a) and ismap(b))]))
+                              if not (op == "." and ismap(a)) and not (op in G.CMP and ismap(a) and ismap(b))
+                              and not (op in ("==", "!=") and isarr(a) and isarr(b))]))
     cases.append(prog_of([("and", a, b) for a in vals for b in vals]))
     cases.append(prog_of([("or", a, b) for a in vals for b in vals]))
     cases.append(prog_of([("not", a) for a in vals] + [("neg", a) for a in vals] + [("coal", a, b) for a in vals for b in vals[:4]]
                          + [("fun1", fn, a) for fn in G.FUN1 for a in vals]
-                         + [("tern", a, ("int", 1), ("int", 2)) for a in vals] + [("index", a, b) for a in vals for b in vals if a[0] in ("maplit", "oos", "bool") or (a[0] == "int" and a[1] >= 0)]))
+                         + [("tern", a, ("int", 1), ("int", 2)) for a in vals] + [("index", a, b) for a in vals for b in vals if not isarr(b) and (a[0] in ("maplit", "oos", "bool", "arrlit") or (a[0] == "int" and a[1] >= 0))]))
+    # arrays: reads at every index class, slices of arrays and strings with every bound class
+    five = ("arrlit", [("int", 10), ("int", 20), ("str", "c"), ("int", 40), ("int", 50)])
+    idxs = [("int", i) for i in (-7, -6, -5, -2, -1, 0, 1, 2, 5, 6, 9)]
+    cases.append(prog_of([("index", five, i) for i in idxs] + [("index", ("index", ("arrlit", [("int", 1), ("arrlit", [("int", 2), ("int", 3)])]), ("int", 2)), i) for i in idxs[3:8]]))
+    bounds = idxs + [None, ("str", ""), ("str", "x"), ("oos", "nosuch"), ("bool", True)]
+    for base in [five, ("str", "hello"), ("str", "h\u00e9llo"), ("str", ""), ("int", 3), ("maplit", [(("str", "a"), ("int", 1))]), ("oos", "nosuch"), ("arrlit", [])]:
+        cases.append(prog_of([("slice", base, lo, hi) for lo in bounds for hi in bounds]))
+    # indexed assignment / unset on arrays and auto-create below maps: each cell in its own function (a failing assignment
+    # makes the function return an error value instead of ending the program)
+    inits = [("arrlit", []), ("arrlit", [("int", 1), ("int", 2), ("int", 3)]), ("arrlit", [("int", 1), ("maplit", [(("str", "a"), ("int", 1))]), ("arrlit", [("int", 7)])]),
+             ("maplit", []), ("maplit", [(("str", "a"), ("int", 1)), (("str", "b"), ("arrlit", [("int", 1)]))]), ("int", 5)]
+    ks = [("int", i) for i in (-4, -3, -1, 0, 1, 3, 4)] + [("str", "a"), ("str", "b"), ("str", ""), ("bool", True)]
+    fns, body, alone = [], [], []
+    for init in inits:
+        n = len(init[1]) if init[0] == "arrlit" else None
+        for kind in ("assign", "unset"):
+            for idx in [[k] for k in ks] + [[k, k2] for k in ks for k2 in (("str", "k"), ("int", 1), ("int", 2), ("int", -1))]:
+                if kind == "assign" and n is not None and idx[0][0] == "int" and idx[0][1] > n + 1:
+                    continue          # null-gap: outside the model
+                if kind == "assign" and len(idx) == 2 and idx[1] == ("int", 2) and not (init[0] == "arrlit" and idx[0] == ("int", 3) and n == 3):
+                    continue          # second-level index 2 on a fresh/one-element array: null-gap
+                name = "g%d" % (len(fns) + len(alone))
+                st = ("assign", ("local", "xs"), idx, ("int", 5), False) if kind == "assign" else ("unset", ("local", "xs"), idx)
+                fd = {"name": name, "params": [], "ret": "any", "body": [("assign", ("local", "xs"), [], init, False), st, ("return", ("local", "xs"))]}
+                em = ("emit1", ("maplit", [(("str", "r"), ("call", name, []))]))
+                if kind == "assign" and len(idx) == 2 and n is not None and idx[0] == ("int", n + 1):
+                    # auto-extend with a further index: a program of its own (on a tree without fix 310ab990d the first such
+                    # assignment converts the shared NULL constant, and every later one in the same program sees it)
+                    alone.append((fd, em))
+                    continue
+                fns.append(fd)
+                body.append(em)
+    for j in range(0, len(fns), 150):
+        p = {"funcs": fns[j:j + 150], "begin": [], "main": [], "end": [body[j:j + 150]]}
+        cases.append({"prog": p, "text": G.mlr_prog(p), "inputs": [], "quiet": False})
+    for fd, em in alone:
+        p = {"funcs": [fd], "begin": [], "main": [], "end": [[em]]}
+        cases.append({"prog": p, "text": G.mlr_prog(p), "inputs": [], "quiet": False})
     # gate table: every declared type x every kind of value, inside a function so that a rejected assignment is an error VALUE
     for ty in ["var", "int", "num", "str", "bool", "map", "float", "arr", "funct"]:
         f = {"name": "fa", "params": [("any", "aa")], "ret": "any", "body": [("define", ty, "t", ("local", "aa")), ("return", ("str", "ok"))]}
@@ -536,7 +591,8 @@ def correspondence(ctx, bits):
     for (c, o), code in zip(meta, codes):
         if code == 1 and reported < 5:
             reported += 1
-            ctx.violation({"broken": "correspondence C14.Harness.classify", "program": c["text"], "inputs": c["inputs"], "quiet": c["quiet"],
+            ctx.violation({"broken": "correspondence C14.Harness.classify", "class": NULLCLS if o.get("null_corrupted") else None,
+                           "program": c["text"], "inputs": c["inputs"], "quiet": c["quiet"],
                            "observed": {k: o.get(k) for k in ("class", "out", "stderr")}, "variant_bits": bits,
                            "coq_case": case_term(bits, c["prog"], c["quiet"], c["inputs"], o)})
 
